@@ -4,6 +4,7 @@ import (
 	"bytes"
 	"fmt"
 	"strings"
+	"unicode"
 	"unicode/utf8"
 
 	"github.com/yuin/goldmark/util"
@@ -80,22 +81,30 @@ func c19UrlOutOK(out []byte) string {
 }
 
 func caseVariant(r *RNG, v []byte) []byte {
-	// change ASCII letter case and stretch whitespace runs; keeps the label's identity
+	// change letter case (any member of the rune's simple-case-folding orbit) and stretch
+	// whitespace runs; by the property this keeps the label's identity
 	var out []byte
-	for i := 0; i < len(v); i++ {
+	for i := 0; i < len(v); {
 		c := v[i]
-		if c >= 'a' && c <= 'z' && r.Bool() {
-			out = append(out, c-32)
-		} else if c >= 'A' && c <= 'Z' && r.Bool() {
-			out = append(out, c+32)
-		} else if util.IsSpace(c) {
+		if util.IsSpace(c) {
 			out = append(out, c)
 			for k := r.Intn(3); k > 0; k-- {
 				out = append(out, " \t\n"[r.Intn(3)])
 			}
-		} else {
-			out = append(out, c)
+			i++
+			continue
 		}
+		rn, w := utf8.DecodeRune(v[i:])
+		if rn == utf8.RuneError {
+			out = append(out, v[i:i+w]...)
+			i += w
+			continue
+		}
+		for k := r.Intn(4); k > 0; k-- {
+			rn = unicode.SimpleFold(rn)
+		}
+		out = utf8.AppendRune(out, rn)
+		i += w
 	}
 	return out
 }
@@ -269,18 +278,21 @@ func runC19(c *Ctx) {
 // ---- BytesFilter programs ----
 
 func collidingKeys(n int) [][]byte {
-	// keys (short strings over a-d) whose bytesHash falls into one bucket
+	// keys whose bytesHash falls into one bucket: half share their first three bytes
+	// (so that the prefix bitmap cannot tell them apart), half do not
 	var keys [][]byte
-	target := uint64(0xffff)
-	enumStrings([]byte("abcd"), 4, func(b []byte) {
+	target := util.VerifBytesHash([]byte("key0")) % 64
+	for i := 0; len(keys) < n/2; i++ {
+		k := []byte(fmt.Sprintf("key%d", i))
+		if util.VerifBytesHash(k)%64 == target {
+			keys = append(keys, k)
+		}
+	}
+	enumStrings([]byte("abcdefgh"), 4, func(b []byte) {
 		if len(b) == 0 || len(keys) >= n {
 			return
 		}
-		h := util.VerifBytesHash(b) % 64
-		if target == 0xffff {
-			target = h
-		}
-		if h == target {
+		if util.VerifBytesHash(b)%64 == target {
 			keys = append(keys, b)
 		}
 	})
@@ -300,6 +312,7 @@ func runC19Filters(c *Ctx) {
 		nProg = 60000
 	}
 	for p := 0; p < nProg; p++ {
+		targeted := p%2 == 0
 		// the program is interpreted on the real filters and, by modelrun, on the model
 		filters := []util.BytesFilter{util.NewBytesFilter()}
 		ref := []map[string]bool{{}}
@@ -308,23 +321,54 @@ func runC19Filters(c *Ctx) {
 		var out strings.Builder
 		nOps := 2 + c.R.Intn(14)
 		coll := 0
+		// targeted shape: fill one bucket of the root, derive siblings that add colliding
+		// keys, let the parent grow afterwards, then query everything everywhere
+		var script []int
+		if targeted {
+			for j := c.R.Intn(6); j > 0; j-- {
+				script = append(script, 0)
+			}
+			for j := 2 + c.R.Intn(3); j > 0; j-- {
+				script = append(script, 6, 2)
+			}
+			script = append(script, 6, 0, 0)
+			for j := 0; j < 10; j++ {
+				script = append(script, 3, 4, 4)
+			}
+			nOps = len(script)
+		}
 		for o := 0; o < nOps; o++ {
 			k := all[c.R.Intn(len(all))]
-			if c.R.Intn(3) > 0 {
+			if c.R.Intn(3) > 0 || targeted {
 				k = keys[c.R.Intn(len(keys))]
 				coll++
 			}
-			switch c.R.Intn(6) {
+			op := c.R.Intn(6)
+			if targeted {
+				op = script[o]
+				if op == 6 { // select the root
+					cur = 0
+					prog = append(prog, "s0")
+					continue
+				}
+			}
+			switch op {
 			case 0, 1:
 				filters[cur].Add(k)
 				ref[cur][string(k)] = true
 				prog = append(prog, "a"+hx(k))
 			case 2:
 				nk := c.R.Intn(3)
+				if targeted {
+					nk = 1
+				}
 				var ks [][]byte
 				var hs []string
 				for j := 0; j < nk; j++ {
 					kk := all[c.R.Intn(len(all))]
+					if targeted {
+						kk = keys[c.R.Intn(len(keys))]
+					}
 					if len(kk) == 0 || bytes.Contains(kk, []byte(",")) {
 						continue
 					}
